@@ -44,7 +44,7 @@ def run(ctx):
         "the Coq closure of Props/C01.v now includes other workers' files (Props/C04, C09, C10, C15, C16 and their Proofs): a change that breaks them breaks this check's coq build obligation",
         "the coin values are an arbitrary function `sem` of the labelled symbolic challenge list of Model/Transcript.v (the same function on both sides): that the real DefaultRandomCoin is such a function (deterministic in the absorbed history and the draw index) is C19_coin_deterministic",
         "the algebraic model (Model/Stark.v part 2): its DEEP composition / composition-column segmentation / verifier recomputation are run against the real composer code (correspondence alg:deep, base fields only); the remaining glue of prove/verify (order of stages, transcript, Merkle, FRI) is tied by reading and by the end-to-end falsifier only",
-        "Lagrange-kernel auxiliary columns are not in the Coq model; the falsifier covers them (mini family LagAir and the wrapper family XAir of harness/src/bin/c01.rs, both profiles)",
+        "Lagrange-kernel auxiliary columns: Coq model Model/StarkLagrange.v with the PARTIAL capstone C01_stark_complete_lagrange_partial (stage premises not instantiated; its DEEP/prove/verify definitions tied to the code by reading only, the Lagrange constraint part through C16/C17); the GKR step is user code: assumption that prover and verifier obtain the same Lagrange random elements; the falsifier covers Lagrange members end to end (mini family LagAir and the wrapper family XAir of harness/src/bin/c01.rs, both profiles)",
         "debug profile: the prover's #[cfg(debug_assertions)] validate_transition_degrees (declared vs actual constraint degrees, smallest evaluation domain) panics on valid traces of the supported class (degenerate columns; and the degree-exact corners n=8/degree 5 + cycle-2 column/blowup 8, n=16/degree 9 + cycle-2 column/blowup 16, n=8/degree 10/blowup 16): the property names no build profile, so this is recorded as the OPEN finding F-C01-debug-degree-diagnostics (coordinator's decision; not repaired: a patch would remove or weaken a maintainers' diagnostic), reproduced on every run by pinned cases and matched ONLY where the check's reference computation of the actual degrees predicts exactly that assertion; the same members are proved in release; every other debug outcome, in particular a panic of Trace::validate on a valid trace, is a violation",
         "extension fields: the algebraic theorems hold for every FOps with FLaws (hence for the extensions once C08 provides their FLaws); E::from(B) embeddings are not modelled separately",
     ]
@@ -172,7 +172,9 @@ def run(ctx):
         "stage premises of C01_stark_complete": [],
         "stage premise of C01_stark_complete_generic_fri (arbitrary FRI stage)": ["fri_complete"],
         "other premises of C01_stark_complete": ["shape facts", "root-of-unity / twiddle facts of the field", "trace validity", "z outside domains, z and z*g non-zero, query points distinct LDE points (assumptions)"],
-        "not modelled": ["serialisation round trip (C12; falsifier only)", "coin retry limit (C19; outside the claim)", "Lagrange kernel / GKR"],
+        "Lagrange round (Model/StarkLagrange.v)": ["lagrange_honest_numer_vanishes / _first_cell / _term_is_poly (row-to-point, from C16)", "lagrange_deep_term",
+                                                    "stark_complete_lagrange_partial (stage premises: merkle_complete, fri_complete, interp_complete, coset_off_domain, interp_pts_spec; correspondence of the new model pending)"],
+        "not modelled": ["serialisation round trip (C12; falsifier only)", "coin retry limit (C19; outside the claim)", "the user's GKR prover/verifier (assumption: same Lagrange random elements on both sides)"],
     }
     ctx.trusted.insert(0, "Coq 8.16.1 kernel + vm_compute (no native_compute); Print Assumptions under every theorem")
     ctx.trusted.append("harness/src/airfam.rs: the AIR family, its trace generator and the reference validity predicate is_valid (the falsifier's oracle)")
